@@ -110,16 +110,14 @@ func lockHandler(lock bool) handler {
 		held := vc.load(st, p)
 		if lock {
 			if vc.lockCheck {
-				vc.oblCount["lock-free"]++
-				vc.oblige(st, "relock#"+itoa(vc.oblCount["lock-free"]-1), Not(held), []string{"C10"}, pos)
+				vc.oblige(st, "relock@"+vc.site(), Not(held), []string{"C10"}, pos)
 			}
 			st.assume(Not(held))
 			vc.store(st, p, tTrue)
 			st.events = append(st.events, Event{Kind: "lock"})
 		} else {
 			if vc.lockCheck {
-				vc.oblCount["unlock-held"]++
-				vc.oblige(st, "unlock-held#"+itoa(vc.oblCount["unlock-held"]-1), held, []string{"C10"}, pos)
+				vc.oblige(st, "unlock-held@"+vc.site(), held, []string{"C10"}, pos)
 			}
 			vc.store(st, p, tFalse)
 			st.events = append(st.events, Event{Kind: "unlock"})
